@@ -5,9 +5,11 @@ from core import *
 import plan as planmod
 import seqengine as se
 import props_cl
+import props_dq
 
 SEQ_PLANS = {}
 SEQ_PLANS.update(props_cl.PLANS)
+SEQ_PLANS.update(props_dq.PLANS)
 
 CUSTOM = {}   # pid -> function(tier, seed) -> exit code   (engines that are not plan-shaped)
 
@@ -72,7 +74,7 @@ def replay(path):
             exe = build(w["source"], defines=w.get("defines", ()), compiler=w.get("compiler", "g++"), std=w.get("std", "c++11"),
                         opt=w.get("opt", "-O1"), sanitize=w.get("sanitize", True), name=w["name"])
             rej = {"script": r["script"], "world": r["world"]}
-            again = se.confirm_rejection(exe, rej, r["trace_module"], wd, interp_args=w.get("args", ()))
+            again = se.confirm_rejection(exe, rej, r["trace_module"], wd, interp_args=w.get("args", ()), trace_env=w.get("trace_env"))
             if again:
                 ex = rej.get("execution", [])
                 ln = rej.get("trace_line", 0)
